@@ -545,6 +545,42 @@ func hasRegex(key string) (bool, string) {
 	return utils.HasRegex(key)
 }
 
+// lowerRegexSource lower-cases the literal text of a regular expression and leaves escape
+// sequences alone: lower-casing the whole source would turn \D, \S, \W, \B, \A, \P{..} into
+// their opposites or into invalid classes.
+func lowerRegexSource(rx string) string {
+	if !strings.ContainsRune(rx, '\\') {
+		return strings.ToLower(rx)
+	}
+	var sb strings.Builder
+	sb.Grow(len(rx))
+	for i := 0; i < len(rx); i++ {
+		c := rx[i]
+		if c != '\\' || i+1 == len(rx) {
+			if 'A' <= c && c <= 'Z' {
+				c += 'a' - 'A'
+			}
+			sb.WriteByte(c)
+			continue
+		}
+		// copy the escape as written: \X, and the braces of \p{Name} / \P{Name} / \x{10FFFF}
+		sb.WriteByte(c)
+		i++
+		sb.WriteByte(rx[i])
+		if (rx[i] == 'p' || rx[i] == 'P' || rx[i] == 'x') && i+1 < len(rx) && rx[i+1] == '{' {
+			for i+1 < len(rx) && rx[i] != '}' {
+				i++
+				sb.WriteByte(rx[i])
+			}
+		} else if (rx[i] == 'p' || rx[i] == 'P') && i+1 < len(rx) {
+			// one-letter class name: \pL
+			i++
+			sb.WriteByte(rx[i])
+		}
+	}
+	return sb.String()
+}
+
 // caseSensitiveVariable returns true if the variable is case sensitive
 func caseSensitiveVariable(v variables.RuleVariable) bool {
 	res := false
@@ -584,7 +620,7 @@ func (r *Rule) AddVariable(v variables.RuleVariable, key string, iscount bool) e
 	var re *regexp.Regexp
 	if isRegex, rx := hasRegex(key); isRegex {
 		if !caseSensitiveVariable(v) {
-			rx = strings.ToLower(rx)
+			rx = lowerRegexSource(rx)
 		}
 		if vare, err := r.memoizeDo("re:"+rx, func() (any, error) { return regexp.Compile(rx) }); err != nil {
 			return err
@@ -631,7 +667,7 @@ func (r *Rule) AddVariableNegation(v variables.RuleVariable, key string) error {
 	var re *regexp.Regexp
 	if isRegex, rx := hasRegex(key); isRegex {
 		if !caseSensitiveVariable(v) {
-			rx = strings.ToLower(rx)
+			rx = lowerRegexSource(rx)
 		}
 		if vare, err := r.memoizeDo("re:"+rx, func() (any, error) { return regexp.Compile(rx) }); err != nil {
 			return err
